@@ -267,7 +267,7 @@ class TransactionPacketGenerator(Elaboratable):
                 with m.If(interface.send_nrdy):
                     m.next = "SEND_NRDY"
                 with m.If(interface.send_erdy):
-                    m.next = "SEND_NRDY"
+                    m.next = "SEND_ERDY"
 
 
             # SEND_ACK -- actively send an ACK packet to our link partner; and wait for that to complete.
